@@ -78,6 +78,8 @@ impl NodeDrive {
             get_values_file_append_mode(&db_name, reclame_space);
         // To inplace update
         let (mut keys_file_write, current_key_file_size) = get_key_write_mode(&db_name);
+        #[cfg(nun_verif)]
+        crate::verif::crash_point("snapshot.files_open");
         log::debug!("current_key_file_size: {}", current_key_file_size);
 
         let mut value_addr = current_value_file_size;
@@ -174,10 +176,18 @@ impl NodeDrive {
         }
 
         keys_file.flush().unwrap();
+        #[cfg(nun_verif)]
+        crate::verif::crash_point("snapshot.keys.flush");
         keys_file_write.flush().unwrap();
+        #[cfg(nun_verif)]
+        crate::verif::crash_point("snapshot.keys_inplace.flush");
         values_file.flush().unwrap();
+        #[cfg(nun_verif)]
+        crate::verif::crash_point("snapshot.values.flush");
 
         write_metadata_file(db_name, db);
+        #[cfg(nun_verif)]
+        crate::verif::crash_point("snapshot.done");
         log::debug!("snapshoted {} keys", changed_keys);
         changed_keys
     }
@@ -187,12 +197,18 @@ impl NodeDrive {
 ///
 fn write_value(values_file: &mut BufWriter<File>, value: &Value, status: ValueStatus) -> u64 {
     values_file.write(&value.value.len().to_le_bytes()).unwrap();
+    #[cfg(nun_verif)]
+    crate::verif::crash_point("value.write.len");
     //8bytes
     let value_as_bytes = value.value.as_bytes();
     //Nth bytes
     values_file.write(&value_as_bytes).unwrap();
+    #[cfg(nun_verif)]
+    crate::verif::crash_point("value.write.bytes");
     //4 bytes
     values_file.write(&status.to_le_bytes()).unwrap();
+    #[cfg(nun_verif)]
+    crate::verif::crash_point("value.write.status");
     let record_size = (U64_SIZE + value_as_bytes.len() + VERSION_SIZE) as u64;
     record_size
 }
@@ -217,10 +233,14 @@ fn update_key(
     keys_file
         .write_at(&version.to_le_bytes(), start_at)
         .unwrap();
+    #[cfg(nun_verif)]
+    crate::verif::crash_point("key.update.version");
     //8 bytes
     keys_file
         .write_at(&value_addr.to_le_bytes(), start_at + VERSION_SIZE as u64)
         .unwrap();
+    #[cfg(nun_verif)]
+    crate::verif::crash_point("key.update.addr");
 }
 
 fn get_key_file_append_mode(db_name: &String, reclame_space: bool) -> BufWriter<File> {
@@ -232,6 +252,8 @@ fn get_key_file_append_mode(db_name: &String, reclame_space: bool) -> BufWriter<
         // Will be removed latter once the new file is safe see method remove_backup_key_file
         fs::rename(&file_name, &backup_file)
             .expect("Could not rename the data file to reclame space");
+        #[cfg(nun_verif)]
+        crate::verif::crash_point("keys.rename_old");
     }
 
     BufWriter::with_capacity(
@@ -263,7 +285,11 @@ fn get_values_file_append_mode(db_name: &String, reclame_space: bool) -> (BufWri
         // Rename becuase remove may not be sync
         fs::rename(&file_name, &backup_file)
             .expect("Could not rename the data file to reclame space");
+        #[cfg(nun_verif)]
+        crate::verif::crash_point("values.rename_old");
         fs::remove_file(&backup_file).expect("Could not delete the backup file to reclame  space");
+        #[cfg(nun_verif)]
+        crate::verif::crash_point("values.remove_old");
     }
 
     let size = match fs::metadata(&file_name) {
@@ -318,12 +344,20 @@ fn write_key(keys_file: &mut BufWriter<File>, key: &String, value: &Value, value
     let len = key.len();
     //8bytes
     keys_file.write(&len.to_le_bytes()).unwrap();
+    #[cfg(nun_verif)]
+    crate::verif::crash_point("key.write.len");
     //Nth bytes
     keys_file.write(&key.as_bytes()).unwrap();
+    #[cfg(nun_verif)]
+    crate::verif::crash_point("key.write.bytes");
     //4 bytes
     keys_file.write(&value.version.to_le_bytes()).unwrap();
+    #[cfg(nun_verif)]
+    crate::verif::crash_point("key.write.version");
     //8 bytes
     keys_file.write(&value_addr.to_le_bytes()).unwrap();
+    #[cfg(nun_verif)]
+    crate::verif::crash_point("key.write.addr");
     get_key_disk_size(key.len())
 }
 
@@ -335,10 +369,14 @@ fn write_metadata_file(db_name: &String, db: &Database) {
         .unwrap();
     //8 bytes
     meta_file.write(&db.metadata.id.to_le_bytes()).unwrap();
+    #[cfg(nun_verif)]
+    crate::verif::crash_point("meta.write.id");
     //4 bytes
     meta_file
         .write(&db.metadata.consensus_strategy.to_le_bytes())
         .unwrap();
+    #[cfg(nun_verif)]
+    crate::verif::crash_point("meta.write.strategy");
 }
 
 pub fn meta_file_name_from_db_name(db_name: String) -> String {
@@ -361,6 +399,10 @@ fn get_dir_name() -> String {
 #[cfg(not(test))]
 fn get_dir_name() -> String {
     use crate::configuration::NUN_DBS_DIR;
+    #[cfg(nun_verif)]
+    if let Some(dir) = crate::verif::data_dir() {
+        return dir;
+    }
     NUN_DBS_DIR.to_string()
 }
 
